@@ -441,6 +441,8 @@ pub fn plumbing_case(rng: &mut Rng, ctx: &mut Ctx, idx: u64) {
     if !which.starts_with("client-decode") {
         client = client.max_decoding_message_size(usize::MAX);
     }
+    // generated clients are routinely cloned: the clone must carry the same limits
+    let mut client = if rng.bool() { client.clone() } else { client };
     let spec = CallSpec { id: id.clone(), shape, req_msgs: req_msgs.clone(), req_meta: vec![], req_pend: vec![], req_gaps_ms: vec![], timeout: None };
     let mut ex = Exec::new();
     let view = match ex.block_on(2_000_000, do_call(&mut client, &spec, None)) {
